@@ -126,6 +126,14 @@ fn corpus() -> Vec<Scenario> {
         s("group", 40, 32, &[], "help nosuch<CR>"),
         s("group", 40, 32, &[], "help net up<CR>"),
         s("group", 40, 32, &[], "net iface up -h<CR>"),
+        // an optional sub-command: its help is reached through the parent's
+        s("group", 40, 32, &[OUT1], "conf<CR>"),
+        s("group", 40, 32, &[OUT2], "conf -v get speed<CR>"),
+        s("group", 40, 32, &[], "conf get --help<CR>"),
+        s("group", 40, 32, &[], "help conf get<CR>"),
+        s("group", 40, 32, &[], "help conf<CR>"),
+        s("group", 40, 32, &[], "conf nosuch --help<CR>"),
+        s("group", 40, 32, &[], "conf get<CR>"),
         s("group", 40, 32, &[], "he<TAB><CR>"),
         s("group", 40, 32, &[OUT3], "g<TAB><W:note\n>o<TAB><CR>"),
     ]
